@@ -74,5 +74,9 @@ func MergeLeftToRight(t Tuple, ts ...Tuple) Tuple {
 			t = t.With(name, value)
 		}
 	}
+	// The merged attributes may now form a specialised tuple such as (@: 0, @item: 1).
+	if g, is := t.(*GenericTuple); is {
+		return g.Canonical()
+	}
 	return t
 }
